@@ -10,8 +10,8 @@
    section it appends) never occurred in an earlier local or remote description. *)
 From Coq Require Import List ZArith String.
 Import ListNotations.
-From Verif Require Import Common.Base Common.JsepNumeral Model.JsepMid Model.JsepMidSpec
-  Proofs.JsepMid Proofs.JsepMidGen Proofs.JsepMidWit Proofs.JsepMidStable Proofs.JsepMidChain.
+From Verif Require Import Common.Base Common.JsepNumeral Model.JsepMid Model.JsepMidSpec Model.JsepMidPair
+  Proofs.JsepMid Proofs.JsepMidGen Proofs.JsepMidWit Proofs.JsepMidStable Proofs.JsepMidChain Proofs.JsepMidPair.
 Open Scope string_scope.
 Open Scope list_scope.
 
@@ -108,6 +108,30 @@ Theorem c09_chain_extends_partial : forall ops,
 Proof. exact chain_extends_lemma. Qed.
 Print Assumptions c09_chain_extends_partial.
 
+(* two pion peers (Model/JsepMidPair.v): each peer runs the model; PDeliver hands
+   the description a peer applied last (pc.LocalDescription()) to the other peer as
+   to_remote of what was generated (what SetRemoteDescription's accessors read in
+   it).  Nothing is assumed about the delivered descriptions: the remote part of
+   the chain guard is discharged by the other peer's invariants.  The guard
+   `orderly` keeps, per peer, the LOCAL part of the chain guard (C06's guard at
+   CreateOffer / CreateAnswer, no stale description applied) and asks for an orderly
+   exchange: no glare, every applied local description is delivered - to a peer
+   whose signalling state accepts it - before the next one is applied.  Then on
+   both peers every applied description extends every earlier one (same mids at
+   the same indices, pairwise distinct), and whenever both peers are stable with
+   nothing in flight they agree on the mid list. *)
+Theorem c09_two_pion_peers_partial : forall sched,
+  orderly sched ->
+  let '(A, B) := prun sched in
+  (forall p, p = A \/ p = B ->
+     forall i j di dj, (i < j)%nat ->
+       nth_error (papplied p) i = Some di -> nth_error (papplied p) j = Some dj ->
+       (exists extra, dj = di ++ extra) /\ NoDup dj /\
+       (forall m x y, nth_error di x = Some m -> nth_error dj y = Some m -> x = y)) /\
+  (psig A = Stable -> psig B = Stable -> p_out A = None -> p_out B = None -> top A = top B).
+Proof. exact pair_chain_lemma. Qed.
+Print Assumptions c09_two_pion_peers_partial.
+
 (* (3): a mid CreateOffer gives a transceiver differs from every mid of the
    current and of the pending remote description (while greaterMid does not
    overflow; before the repair of the numbering loop only the current one was
@@ -197,3 +221,15 @@ Example c09_chain_guard_stale_answer :
   map (fun e => match e with (s, g, o) => chain_guardb s g o end) (gtrace ex_stale_answer) =
     [true; true; true; true; false].
 Proof. exact ex_stale_answer_applied. Qed.
+
+(* an orderly schedule of two exchanges (A offers an audio track, a recvonly video
+   transceiver and a data channel; B answers provisionally, adds a track, answers;
+   after a RemoveTrack on A, B offers one more transceiver and A answers): both
+   peers apply five descriptions of 3, 3, 3, 4 and 4 sections and end with the mid
+   list 0 1 2 3 *)
+Example c09_two_pion_peers_nontrivial :
+  orderly ex_pair /\
+  map (@List.length _) (papplied (fst (prun ex_pair))) = [3; 3; 3; 4; 4]%nat /\
+  map (@List.length _) (papplied (snd (prun ex_pair))) = [3; 3; 3; 4; 4]%nat /\
+  top (fst (prun ex_pair)) = Some [Some "0"; Some "1"; Some "2"; Some "3"].
+Proof. exact ex_pair_ok. Qed.
